@@ -9,10 +9,12 @@ Oracle: a hand-written recogniser (character loop, no regex) of the size grammar
     [+] digits* [. ] digits+ unit? B?          (cpu: unit = m, no B;  memory/storage: unit = K Ki M Mi G Gi T Ti P Pi)
 splits the string into numeral and unit; the denoted value is the exact rational fractions.Fraction(N, 10**d);
 cpu must be floor(value * 1000) (value, when the unit is m), memory/storage must be ceil(value * factor).
-  * string in the grammar and the parser returns another int / raises / returns None  => violation;
+  * string in the grammar and the parser returns another int / a non-int / raises  => violation
+    (a documented spelling rejected by both sides is counted, not judged: the property speaks of accepted spellings);
   * client parser accepts (returns non-None) <=> server validator accepts (memory additionally accepts the
     symbolic machine-memory names lowmem/standard/highmem on the server, which are not size strings) else violation;
-  * string outside the recogniser's grammar accepted by *both* sides: value not judged (counted).
+  * string outside the recogniser's grammar accepted by *both* sides: value not judged (counted); the parser
+    raising on a string the server validator accepts is a violation.
 A wrong value is attributed to the binary-float mechanism only if it equals what the float evaluation of the
 same formula gives (so that a known-finding key for float artefacts cannot mask a different defect).
 
@@ -42,7 +44,7 @@ ASSUMPTIONS = [
 ]
 TRUSTED_BASE = ['fractions.Fraction', 'recogniser and expected-value arithmetic in this file']
 SHARDS = {'quick': 1, 'thorough': 16}
-TIMEOUT = {'quick': 300, 'thorough': 1500}
+TIMEOUT = {'quick': 600, 'thorough': 3600}
 
 
 def FLOORS(tier):
@@ -58,6 +60,8 @@ def FLOORS(tier):
         'server_whole_job_validations': 100_000 * k,
         'spelling_classes': 18,
         'units_seen': 13,
+        'optional_B': 5_000 * k,
+        'leading_plus': 5_000 * k,
     }
 
 
@@ -131,8 +135,6 @@ def classify(kind, ip, fp, unit, got, want):
         if isinstance(got, OverflowError) and isinstance(fl, OverflowError):
             return f'{kind}/float-overflow-raises'
         return f'{kind}/raises'
-    if got is None:
-        return f'{kind}/rejects-documented-spelling'
     if not isinstance(got, int) or isinstance(got, bool):
         return f'{kind}/wrong-type'
     if not isinstance(fl, Exception) and got == fl:
@@ -297,11 +299,20 @@ def run(ctx):
                 ctx.count(f'accepted_outside_model_grammar_{kind}')  # not judged
             elif isinstance(got, Exception):
                 ctx.count(f'raised_outside_model_grammar_{kind}')
+                if srv:  # the server admits the string, then the parser it calls next crashes on it
+                    ctx.violation(f'{kind}/raises-on-server-accepted-string', f'parse_{kind}({wit["string"]!r}) raised {got!r} on a string the job validator accepts',
+                                  {**wit, 'client_result': got})
             elif not srv:
                 ctx.count('rejected_by_both')
             return
         # -- value -------------------------------------------------------------------------------
         ip, fp, unit = parsed
+        if got is None:
+            # The property speaks about *accepted* spellings.  A documented spelling that both sides reject is not
+            # judged (the floors on units / optional B / leading + make the run INCONCLUSIVE if a whole class vanished);
+            # if only the parser rejects it, the acceptance mismatch has been reported above.
+            ctx.count(f'documented_spelling_rejected_{kind}')
+            return
         want = exact(kind, ip, fp, unit)
         ctx.count(f'values_checked_{kind}')
         ctx.seen('spelling_classes', label)
@@ -319,7 +330,7 @@ def run(ctx):
             ctx.count('leading_plus')
         if kind != 'cpu' and s.endswith('B'):
             ctx.count('optional_B')
-        if isinstance(got, Exception) or got is None or type(got) is not int or got != want:
+        if isinstance(got, Exception) or type(got) is not int or got != want:
             key = classify(kind, ip, fp, unit, got, want)
             if len((ip + fp).strip('0')) <= 6 and len(ip) <= 4:
                 ctx.count(f'wrong_on_everyday_numeral_{kind}')  # e.g. 8.3G, 1.001, 1001m: at most 6 significant digits
@@ -357,7 +368,7 @@ def run(ctx):
             evaluate('cpu', f'{k}m', 'grid-int-m', whole_job=False)
 
     # ---- phase grammar ----------------------------------------------------------------------------------
-    N = ctx.pick(60_000, 250_000)
+    N = ctx.pick(50_000, 150_000)
     for i, rng in ctx.cases(N, 'grammar'):
         num, label = gen_numeral(rng)
         sign = '+' if rng.random() < 0.15 else ''
@@ -373,5 +384,27 @@ def run(ctx):
         evaluate('storage', mem_s, label)
 
 
-# ---- validation record ------------------------------------------------------------------------------
-# see bottom of file after validation
+# ---- validation record ---------------------------------------------------------------------------------
+# Unchanged tree: exit 1 in both tiers, every seed 0..4.  Genuine defect (DESIGN section 6), mechanism keys seen
+# ({kind} = cpu | memory | storage; "equals the float formula" is checked by the classifier):
+#   {kind}/float-rounding-down     cpu: '1.001' -> 1000 (1001), '1001m' -> 1000 (1001); memory: '0.71Pi' -> 799388933858263 (..264), '8.2P'
+#   {kind}/float-rounding-up       memory/storage: '8.3G' -> 8300000001, '16.1K' -> 16101, '0.067G' -> 67000001;
+#                                  cpu (only beyond double precision): '6.49999999999999999999999999999999' -> 6500 (6499)
+#   {kind}/float-overflow-raises   numerals of 309+ digits: OverflowError('cannot convert float infinity to integer')
+#   (9 keys in all.  seed 0 quick: 713 cpu / 16534 memory / 16534 storage wrong results on "everyday" numerals of <= 6 significant digits.)
+# Proposed repair: /verif/proposed_fixes/C25-float-artefacts.diff (fractions.Fraction for float, 3 tokens + 1 import).
+# Scratch worktree with the repair applied: quick and thorough, seeds 0..4: HELD; `pytest auth/test` there: 63 passed.
+# Breaks applied one at a time on top of the repaired scratch tree, quick tier, seed 0:
+#   own 1  conv_factor['Ki'] = 1000                                         caught  memory/wrong-value, storage/wrong-value
+#   own 2  `int(number * factor) + 1` for math.ceil (off by one when exact)  caught  memory/wrong-value ('0K' -> 1), storage/wrong-value
+#   own 3  CPU_REGEX.match for .fullmatch in parse_cpu_in_mcpu               caught  cpu/client-server-acceptance-mismatch ('+1396.4 B')
+#   own 4  `round(number * 1000)` for int() in parse_cpu_in_mcpu             caught  cpu/wrong-value ('0.6m' -> 1)
+#   own 5  validator regex for storage widened (`...|[0-9]+[kmg]`)           caught  storage/client-server-acceptance-mismatch
+#   own 6  CPU regex loosened to `[0-9]*` (admits '' and '5.') on both sides  MISSED at first (consistent on both sides, value of
+#          strings outside the model grammar is not judged); the parser crash on '' (ValueError) for a string the job validator
+#          accepts is now reported -> caught cpu/raises-on-server-accepted-string
+#   own 7  optional B dropped from STORAGE_REGEXPAT (client and server both)  not a violation of the statement (it speaks of accepted
+#          spellings; both sides reject consistently): HELD, counted in documented_spelling_rejected_storage; a spelling class
+#          vanishing for every kind trips the optional_B / leading_plus / units_seen floors (INCONCLUSIVE).  An earlier version of
+#          the oracle alarmed here (storage/rejects-documented-spelling) and was relaxed to what the statement says.
+#   (DESIGN: "Break: n/a if the unchanged tree already violates".)
